@@ -347,7 +347,7 @@ func TestC06(t *testing.T) {
 	defer r.Flush()
 	if r.Lane == 3%r.Lanes {
 		// the engine behind a types.HttpServer listening itself: HTTP/1.1, HTTP/2 (TLS) and HTTP/3 (QUIC) on loopback
-		defer netLanes(r, r.N(4, 64))
+		netLanes(r, r.N(4, 64))
 	}
 	r.Rule("PRNG server option combinations (ping interval/timeout, max payload, transport set, allowUpgrades, allowEIO3, initial packet text/binary/absent, cookie) x 3-5 handshakes per server over polling/JSONP/WebSocket/WebTransport with EIO=4, 3, absent or given twice with different values (must resolve to ONE revision for admission, Protocol() and payload format) and b64; oracle: one connection event and one registry entry per admitted handshake, open packet JSON == configuration (upgrades as a set), initial packet first message of EVERY session with its kind, Protocol() and heartbeat mode per revision, revision 3 refused when disallowed; distinct = option/session signature")
 	// a case that has not ended after a minute of real time (normal: milliseconds) is examined for a
